@@ -2,18 +2,20 @@
 # Usage: tools/try_mutant.sh <patch.diff> <Cxx> [<Cyy> ...]
 # Applies a property-breaking patch to /repo, runs the quick checks of the given properties, and undoes the patch.
 # Prints DETECTED/MISSED per property. /repo must be clean before.
+# REPO_DIR / VERIF_HOME select a second sandbox (tools/sandbox_b.sh) so that a long sweep does not block /repo.
 patch="$1"; shift
-cd /repo || exit 2
+REPO_DIR="${REPO_DIR:-/repo}"; VERIF_HOME="${VERIF_HOME:-/verif}"
+cd "$REPO_DIR" || exit 2
 if [ -n "$(git status --porcelain --untracked-files=no)" ]; then echo "/repo not clean"; exit 2; fi
 if ! git apply --3way "$patch" 2>/tmp/apply.err && ! git apply "$patch" 2>>/tmp/apply.err; then echo "APPLY-FAILED $patch"; cat /tmp/apply.err; git reset -q --hard HEAD; exit 3; fi
 git reset -q
 for p in "$@"; do
-	out=$(cd /verif && ./check "$p" quick 2>&1); code=$?
+	out=$(cd "$VERIF_HOME" && ./check "$p" quick 2>&1); code=$?
 	if [ $code -eq 1 ]; then echo "DETECTED $p: $(echo "$out" | grep -A1 '^VIOLATION' | head -4 | tr '\n' ' ')"; 
 	elif [ $code -eq 0 ]; then echo "MISSED $p: $(echo "$out" | tail -1)";
 	else echo "ERROR($code) $p: $(echo "$out" | tail -5)"; fi
 done
-cd /repo && git reset -q --hard HEAD && git status --porcelain --untracked-files=no
-rm -rf /verif/replays
+cd "$REPO_DIR" && git reset -q --hard HEAD && git status --porcelain --untracked-files=no
+rm -rf "$VERIF_HOME/replays"
 # leave a harness binary built from the restored tree behind
-(cd /verif/sim && cargo build --release --offline -q 2>/dev/null)
+(cd "$VERIF_HOME/sim" && cargo build --release --offline -q 2>/dev/null)
